@@ -47,6 +47,11 @@ class DurationObserver(FeatureObserver):
         }
         for feature_type in self.features:
             mapping[feature_type]()
+        # The observer may be created after some operations have been
+        # dispatched: account for them too.
+        for machine_schedule in self.dispatcher.schedule.schedule:
+            for scheduled_operation in machine_schedule:
+                self.update(scheduled_operation)
 
     def update(self, scheduled_operation: ScheduledOperation):
         mapping = {
